@@ -67,6 +67,11 @@ func Spec() *run.Spec {
 		"race_gomaxprocs":              3,
 		"march_parallel_compared":      10,
 		"many_block_parallel_marches":  6,
+		"history_march_steps":          12,
+		"history_adders":               3,
+		"field_exact_block_bounds":     3,
+		"field_aligned_scenes":         4,
+		"field_cutoffs":                4,
 		"many_block_blocks_over_cpus":  2,
 		"field_parallel_compared":      10,
 		"field_parallel2_compared":     10,
@@ -122,9 +127,9 @@ func Spec() *run.Spec {
 			}, Run: scanLarge, Batch: 15, CPUBudgetS: 60, Env: plainEnv},
 			{Name: "field", Cases: func(t string) int {
 				if t == "thorough" {
-					return 300 + manyBlockCases(t)
+					return 300 + manyBlockCases(t) + historyCases(t)
 				}
-				return 24 + manyBlockCases(t)
+				return 24 + manyBlockCases(t) + historyCases(t)
 			}, Run: fieldCase, Batch: 1, CPUBudgetS: 900, Parallel: 12, Env: plainEnv},
 			{Name: "race-scan", Race: true, Cases: func(t string) int {
 				if t == "thorough" {
